@@ -67,7 +67,10 @@ func (x *world) syncPoint(label string) bool {
 	if x.prop == "C15" {
 		x.checkC15(label)
 	}
-	if x.prop == "C16" && !x.c16Checked {
+	if x.prop == "C16" {
+		if x.c16Checked {
+			x.env.Count("probe.checked-after-resumed-recovery")
+		}
 		x.c16Checked = true
 		x.noteClient()
 		if x.unlockAtOpen {
